@@ -229,6 +229,27 @@ def check_run(lab, mon, case, obs, reps, fmt_used):
     got_e = [s.name for s in v2.errored_scenarios]
     mon.check("lists.failing_and_errored", got_f == failing and got_e == errored,
               lambda: W(impl="collector", listed_failing=got_f, listed_errored=got_e, want_failing=failing, want_errored=errored))
+    # -- the other public ways to the same numbers ------------------------------------------------------
+    from behave.summary import SummaryCollector
+    whole = SummaryCollector()
+    for f in obs.features:
+        whole(f)                                    # the function-call form, one model element at a time
+    wc = whole.summary_counts if hasattr(whole, "summary_counts") else whole.counts
+    for kind, obj in (("feature", wc.features), ("rule", wc.rules), ("scenario", wc.scenarios), ("step", wc.steps)):
+        got = {k.name: v for k, v in obj.items() if v}
+        mon.check("collector.call_form_counts_match_census", got == cen[kind], lambda: W(kind=kind, got=got, want=cen[kind], form="collector(feature)"))
+    for rep, impl in ((v1, "reporter"), (v2, "collector")):
+        buf = io.StringIO()
+        rep.stream = io.StringIO()                  # a report written to the caller's own stream goes there, all of it
+        try:
+            rep.print_problematic_scenarios(stream=buf)
+            text, err = buf.getvalue(), None
+        except Exception as ex:
+            text, err = "", repr(ex)
+        mon.check("lists.printed_to_the_given_stream", err is None and listed(text, "Failing") == failing and listed(text, "Errored") == errored
+                  and not rep.stream.getvalue().strip(),
+                  lambda: W(impl=impl, listed_failing=listed(text, "Failing"), listed_errored=listed(text, "Errored"),
+                            want_failing=failing, want_errored=errored, leaked_to_default_stream=rep.stream.getvalue()[:200], error=err))
 
 
 def run(spec, mon):
